@@ -18,6 +18,9 @@ pub struct Case {
     pub initial: [f64; 6],
     pub from: [f64; 6],
     pub to: [f64; 6],
+    /// search window clipped at an edge: 1 = from[k] is exactly the initial value, 2 = to[k] is (the other side still moves)
+    #[serde(default)]
+    pub pin: [u8; 6],
 }
 
 fn key(v: &[f64; 6]) -> [u64; 6] {
@@ -30,8 +33,8 @@ impl Property for C14 {
         "C14"
     }
     fn rule(&self) -> String {
-        "robots with shape (with/without base and tool, slim box bodies) x collision-free initial vectors (rejected ones counted) x from/to vectors (small offsets around the initial vector, and folded targets near +-3.1 rad that drive the forearm/tool into earlier links or the base) \
-         x optional joint limits x 0..2 environment boxes x safety tables (modes first/all) x rayon pools 1/3/4/16. Oracle: the twelve candidates filtered by oracle A and by the robot's own full collides(); compared as a multiset. \
+        "robots with shape (with/without base and tool, slim box bodies) x collision-free initial vectors (rejected ones counted) x from/to vectors (small offsets around the initial vector, windows clipped at an edge so that from[k] or to[k] is exactly the initial value, and folded targets near +-3.1 rad that drive the forearm/tool into earlier links or the base) \
+         x optional joint limits x 0..2 environment boxes x safety tables (modes first/all) x rayon pools 1/3/4/16. Oracle: the twelve candidates filtered by oracle A and by the robot's own full collides(); compared as sets (at most twelve offered). \
          Non-trivial: at least one candidate rejected for collision and at least one offered."
             .into()
     }
@@ -60,8 +63,9 @@ impl Property for C14 {
                 Some(LimitSpec { from, to, weight: 0.0 })
             })],
             any::<[bool; 6]>(),
+            prop::array::uniform6(prop_oneof![8 => Just(0u8), 1 => Just(1u8), 1 => Just(2u8)]),
         )
-            .prop_map(|(mut scene, initial, f, t, limits, abs)| {
+            .prop_map(|(mut scene, initial, f, t, limits, abs, pin)| {
                 scene.slim = true;
                 scene.limits = limits;
                 if scene.safety.mode % 3 == 2 {
@@ -89,8 +93,13 @@ impl Property for C14 {
                 for k in 0..6 {
                     from[k] = if f[k].abs() <= 0.3 && !abs[k] { initial[k] - f[k].abs() } else { f[k] };
                     to[k] = if t[k].abs() <= 0.3 && !abs[k] { initial[k] + t[k].abs() } else { t[k] };
+                    match pin[k] {
+                        1 => from[k] = initial[k],
+                        2 => to[k] = initial[k],
+                        _ => {}
+                    }
                 }
-                Case { scene, initial, from, to }
+                Case { scene, initial, from, to, pin }
             })
             .boxed()
     }
@@ -148,11 +157,15 @@ impl Property for C14 {
         }
         let mut want: Vec<[u64; 6]> = expect.iter().map(key).collect();
         want.sort();
+        // compared as sets: whether a configuration that arises twice (from[k] == to[k], or a value equal to the initial one) is offered once or twice is not part of the statement
+        want.dedup();
         let mut first: Option<Vec<[u64; 6]>> = None;
         for threads in [1usize, 3, 4, 16] {
             let got = in_pool(threads, || no_panic(|| robot.non_colliding_offsets(&c.initial, &c.from, &c.to))).map_err(|m| viol!("no panic", "non_colliding_offsets: {}", m))?;
             let mut g: Vec<[u64; 6]> = got.iter().map(key).collect();
             g.sort();
+            g.dedup();
+            ensure!(got.len() <= 12, "at most twelve neighbour configurations are offered", "[{} threads] {} offered", threads, got.len());
             if g != want {
                 // describe the difference
                 let offered_colliding: Vec<&[f64; 6]> = got.iter().filter(|v| robot.collides(v)).collect();
@@ -179,6 +192,9 @@ impl Property for C14 {
         ctx.class_n("candidates:offered", expect.len() as u64);
         ctx.class_n("candidates:rejected-collision", rejected_collision);
         ctx.class_n("candidates:rejected-limits", rejected_limits);
+        if (0..6).any(|k| c.from[k].to_bits() == c.initial[k].to_bits() || c.to[k].to_bits() == c.initial[k].to_bits()) {
+            ctx.class("window clipped: a from/to value equals the initial one");
+        }
         ctx.class(if c.scene.base.is_some() { "base:yes" } else { "base:no" });
         ctx.class(if c.scene.tool.is_some() { "tool:yes" } else { "tool:no" });
         if rejected_collision >= 1 && !expect.is_empty() {
